@@ -37,13 +37,15 @@ OPTS = ('RFC6531_FOLLOW_RFC20', 'RFC6531_FOLLOW_RFC5322', 'LABELS_ALLOW_UNDERSCO
 
 class Lib:
     """One configuration of the library, built from a snapshot of /repo's working tree."""
-    def __init__(self, snap, rfc20=False, f5322=False, uscore=False, extra=False, san=False):
+    def __init__(self, snap, rfc20=False, f5322=False, uscore=False, extra=False, san=False, backend='idn2'):
         self.cfg = (rfc20, f5322, uscore, extra, san)
         self.rfc20, self.f5322, self.uscore, self.extra, self.san = self.cfg
-        name = 'b_%d%d%d%d%d' % tuple(int(x) for x in self.cfg)
+        self.backend = backend
+        name = 'b_%d%d%d%d%d' % tuple(int(x) for x in self.cfg) + ('' if backend == 'idn2' else '_' + backend)
         self.dir = os.path.join(snap.root, name)
         shutil.copytree(snap.src, self.dir, symlinks=True)
-        mk = ['make', '-j%d' % NCPU, 'static', 'FORCE_IDN=idn2',
+        stubs = os.path.join(HARN, 'stubs')
+        mk = ['make', '-j%d' % NCPU, 'static', 'FORCE_IDN=' + backend,
               'RFC6531_FOLLOW_RFC20=' + ('ON' if rfc20 else 'OFF'),
               'RFC6531_FOLLOW_RFC5322=' + ('ON' if f5322 else 'OFF'),
               'LABELS_ALLOW_UNDERSCORE=' + ('ON' if uscore else 'OFF')]
@@ -54,6 +56,11 @@ class Lib:
         if san:
             cflags = cflags.replace('-O2', '-O1 -g') + ' -fsanitize=address,undefined -fno-sanitize-recover=all -fno-omit-frame-pointer'
             self.drv_flags += ['-g', '-fsanitize=address,undefined', '-fno-sanitize-recover=all']
+        self.backend_flags = []
+        if backend == 'idn':
+            mk += ['DEFS=-DHAVE_LIBIDN -I' + stubs, 'LIBS=']; self.backend_flags = ['-DHAVE_LIBIDN', '-DIDN2_SKIP_LIBIDN_COMPAT', '-I' + stubs, os.path.join(HARN, 'adapter.c')]
+        elif backend == 'idnkit':
+            mk += ['DEFS=-DHAVE_IDNKIT -I' + stubs, 'LIBS=']; self.backend_flags = ['-DHAVE_IDNKIT', '-DIDN2_SKIP_LIBIDN_COMPAT', '-I' + stubs, os.path.join(HARN, 'adapter.c')]
         mk.append('CFLAGS=' + cflags)
         rc, out = sh(mk, cwd=self.dir, timeout=600)
         if rc != 0 or not os.path.exists(os.path.join(self.dir, 'libeav.a')):
@@ -61,7 +68,7 @@ class Lib:
         self._drv = None
     def compile(self, src, out, wrap=True, extra_flags=()):
         cmd = ['gcc', '-std=gnu99', '-D_GNU_SOURCE'] + self.drv_flags + list(extra_flags) + \
-              ['-I' + os.path.join(self.dir, 'include'), '-I' + self.dir, src, os.path.join(self.dir, 'libeav.a'), '-lidn2', '-o', out]
+              ['-I' + os.path.join(self.dir, 'include'), '-I' + self.dir, src] + self.backend_flags + [os.path.join(self.dir, 'libeav.a'), '-lidn2', '-o', out]
         if wrap:
             cmd.append('-Wl,--wrap=idn2_to_ascii_8z,--wrap=malloc,--wrap=free,--wrap=strndup')
         rc, o = sh(cmd, timeout=300)
@@ -84,7 +91,7 @@ class Lib:
                 raise BuildError('building bin/eav failed:\n' + o[-3000:])
         return out
     def model_args(self):
-        return [str(int(self.rfc20)), str(int(self.f5322)), str(int(self.uscore)), str(int(self.extra))]
+        return [str(int(self.rfc20)), str(int(self.f5322)), str(int(self.uscore)), str(int(self.extra))] + (['kit'] if self.backend == 'idnkit' else [])
 
 class Snapshot:
     def __init__(self):
@@ -97,6 +104,7 @@ class Snapshot:
         self.libs = {}
         self.tables = None
     def lib(self, **kw):
+        kw = {k: v for k, v in kw.items() if v and not (k == 'backend' and v == 'idn2')}
         key = tuple(sorted(kw.items()))
         if key not in self.libs:
             self.libs[key] = Lib(self, **kw)
